@@ -13,7 +13,7 @@ def hook_commits():
 CHECKS = {
  "C05": dict(engine="lzsim-st", category="fault_enumeration", design_ref="DESIGN.md §3 C05",
    technique="deterministic simulation: seeded fault injection on the Read/Write seam (every truncation offset / every call index on small streams, sampled beyond), replayable case files",
-   text="Every reader and writer is driven through SimSource/SimSink. Per generated stream (single streams of every format, and XZ files of 2-3 concatenated streams with stream padding read with multi-stream decoding on), every truncation offset and an error at every source/sink call index are enumerated (within a per-run budget, sampled beyond it), plus benign short/Interrupted I/O on every call. Oracle: truncation or a source error ends in Err (with the source's kind for persistent errors), bytes delivered before are a prefix of the original, output is bounded; benign I/O leaves decoded and compressed bytes identical; a sink error is returned by some writer call. Bounded enumeration on small streams plus seeded exploration: evidence, not proof.",
+   text="Every reader and writer is driven through SimSource/SimSink. Per generated stream (single streams of every format, and XZ files of 2-3 concatenated streams with stream padding read with multi-stream decoding on), every truncation offset and an error at every source/sink call index are enumerated (within a per-run budget, sampled beyond it), plus benign short/Interrupted I/O on every call. bcj2.io does the same for BCJ2Reader over its four sources (independent short/Interrupted schedules, a persistent error at every call index of one source, every cut of one stream inside what the reader pulled). Oracle: truncation or a source error ends in Err (with the source's kind for persistent errors), bytes delivered before are a prefix of the original, output is bounded; benign I/O leaves decoded and compressed bytes identical; a sink error is returned by some writer call. Bounded enumeration on small streams plus seeded exploration: evidence, not proof.",
    note="Trusts the harness read/write loops (retry Interrupted like std's read_to_end/write_all) and the LZIP member-boundary rule; only x86_64; streams come from the crate's own writers."),
 }
 
@@ -41,13 +41,13 @@ st("C01", "exploration", "deterministic simulation over the Read/Write seams: se
 st("C02", "exploration", "deterministic simulation over the Read/Write seams (histories, benign faults, position jump); containers x options by seeded generation",
    "XZWriter (all checks, block sizes, 0-3 pre-filters via hook H2) and LZIPWriter (dictionary sizes incl. non-representable ones, member sizes) round trip through the crate's own readers under random histories and benign I/O; same bias and long-input variants as C01.")
 st("C07", "exploration", "deterministic simulation: the call-history dimension itself (write partitions, empty writes, flushes; read buffer sequences incl. zero-length)",
-   "Per generated (format, options, input) several write histories (one shot, byte-at-a-time, huge-then-tiny, random with flushes and empty writes) must all decode to the input; several read histories incl. zero-length destinations must all yield the same bytes. Covers every writer/reader and the filter writers/readers.")
+   "Per generated (format, options, input) several write histories (one shot, byte-at-a-time, huge-then-tiny, random with flushes and empty writes) must all decode to the input; several read histories incl. zero-length destinations must all yield the same bytes. Covers every writer/reader and the filter writers/readers; bcj2.history reads the four BCJ2 streams under 6-12 destination-size histories.")
 st("C12", "exploration", "deterministic simulation: concatenated streams/members with benign short/Interrupted reads on the padding scanner",
    "1-5 XZ streams with different options joined (and followed) by valid (0,4,8,12,16) or invalid (1,2,3,5,6,7) stream padding, 1-8 LZIP members; multi-stream reader must return the concatenation / reject bad padding also behind the last stream, single-stream mode returns the first stream only and neither needs nor judges what follows it (another stream, malformed padding, arbitrary bytes).")
 st("C13", "exploration", "deterministic simulation: junk-filling allocator between repeated runs, write partitions as histories (MT part: schedules, see lzsim-mt mt.determ)",
    "Same input and options encoded three times with fresh non-zeroed memory filled with different patterns must be byte-identical; four write partitions (no flush) must give identical bytes for LZMA, LZIP and for LZMA2/XZ without chunk/block size.")
 st("C16", "exploration", "deterministic simulation: exact byte accounting on the source seam under random read sizes and short/Interrupted reads",
-   "Valid LZMA (end marker; declared size), LZMA2 and single-stream XZ followed by nothing / zeros / another stream / random bytes: when the reader reports the end the source has handed out exactly the stream's bytes, and a second reader on the same source (into_inner) decodes the following stream.")
+   "Valid LZMA (end marker; declared size), LZMA2 and single-stream XZ followed by nothing / zeros / another stream / random bytes: when the reader reports the end the source has handed out exactly the stream's bytes, and a second reader on the same source (into_inner) decodes the following stream; two more reads after the end stay Ok(0) without touching the source. One run in 250 uses an XZ stream of 128-140 blocks (two-byte record count in the index).")
 st("C18", "exploration", "deterministic simulation: post-run analysis of recorded sink contents with independent parsers under one-huge vs many-small write histories (MT unit sizes and chunk/member counts: lzsim-mt scenario mt.sizes, merged into this check)",
    "XZ index records and LZIP trailers must not exceed max(block/member size, dict) and must sum to the input; .lzma expected size: write beyond it fails, finish short of it fails, header carries the bytes written.")
 
@@ -59,7 +59,7 @@ st("C11", "exploration", "deterministic simulation: filter readers over SimSourc
    "The harness BCJ2 encoder is trusted (written from the 7-Zip format; validated only by the round trip). liblzma trusted as filter reference.")
 
 st("C04", "fault_enumeration", "deterministic simulation with storage-fault injection between writer and reader: exhaustive single-bit flips on small files, seeded compound faults and structured field edits with CRC fix-up beyond; LZIPReaderMT under the seeded scheduler",
-   "Valid XZ (with check) and LZIP files are damaged and read back: every single-bit flip of small files, random compound faults (flip/subst/zero/delete/insert/dup/swap/trunc/torn), edits of every header, size, CRC and control field with and without CRC fix-up, and non-format input. The read must fail or return exactly the original (LZIP trailing-garbage rule; damage that yields another valid file per liblzma is exempt). The MT LZIP reader gets the same treatment under seeded schedules (mt.corrupt).",
+   "Valid XZ (with check) and LZIP files are damaged and read back: every single-bit flip of small files, random compound faults (flip/subst/zero/delete/insert/dup/swap/trunc/torn), edits of every header, size, CRC and control field with and without CRC fix-up, whole-structure edits of XZ files that leave every block intact (a block duplicated, removed, two blocks swapped, an index record removed with padding/CRC32/backward size recomputed), and non-format input. The read must fail or return exactly the original (LZIP trailing-garbage rule; damage that yields another valid file per liblzma is exempt). The MT LZIP reader gets the same treatment under seeded schedules (mt.corrupt).",
    "Bytes delivered before an eventual error are not judged. liblzma arbitrates 'another valid file'. Harness container parsers trusted.")
 CHECKS["C04"]["engine"] = "lzsim-st + lzsim-mt"
 st("C06", "exploration", "deterministic simulation: hostile media on the Read seam with resource monitors (panic capture, worker-process death attribution, output and allocation budgets via the allocator seam, reads after error); MT readers under the seeded scheduler with small coroutine stacks",
@@ -81,8 +81,8 @@ CHECKS["C14"] = dict(engine="lzsim-xcfg", category="exploration", design_ref="DE
    note="x86_64 little-endian host only (AVX2/SSE4.1 as detected); aarch64 assembly, NEON and big-endian branches are not executed.")
 
 st("C15", "exploration", "deterministic simulation workloads under memory monitors: the simulator's allocator puts every library allocation >= 4 KiB directly in front of an inaccessible page (a stray access - also one made by inline assembly - kills the worker and is attributed to the case), hook H5 shadow assertions, a second pass with an unoptimised build; thorough tier adds an AddressSanitizer build and tiny cases under Miri",
-   "Workloads that reach every unsafe block of the optimization feature (match extension at both window ends, input that fills the window buffer exactly, window moves, finishing with < 8 bytes, SIMD renormalisation after the 31-bit position wrap, the assembly direct-bit reader at every position in the last bytes of its buffer and at the end of chunks cut to many sizes, damaged chunks) run under guard pages and with shadow assertions that restate each block's precondition immediately before it. A part of every scenario runs again in an unoptimised (cargo dev profile) build, because the optimiser may legally move a load below the bounds test the source performs after it, so that an over-read present in the source does not exist in the optimised binary. thorough: the scaled-down plan again under ASan (worker death = finding) and 64 tiny encode/decode cases under Miri.",
-   "A guard page catches accesses behind the END of an allocation (up to alignment slack) of at least 4 KiB, not in front of it and not use after free (freed mappings are recycled). Shadow assertions are hand-written restatements of the SAFETY comments; ASan cannot see asm! loads, Miri cannot execute asm!; x86_64 only.")
+   "Workloads that reach every unsafe block of the optimization feature (match extension at both window ends, input that fills the window buffer exactly, window moves, oob.movewin: several window moves per run with dictionary sizes for which the 64-byte aligned move has no slack and data whose matches sit at the largest distance the dictionary allows, finishing with < 8 bytes, SIMD renormalisation after the 31-bit position wrap, the assembly direct-bit reader at every position in the last bytes of its buffer and at the end of chunks cut to many sizes, damaged chunks) run under guard pages and with shadow assertions that restate each block's precondition immediately before it. A part of every scenario runs again in an unoptimised (cargo dev profile) build, because the optimiser may legally move a load below the bounds test the source performs after it, so that an over-read present in the source does not exist in the optimised binary. thorough: the scaled-down plan again under ASan (worker death = finding) and 64 tiny encode/decode cases under Miri.",
+   "Known miss: seeded change S-C15-5 (one byte of history less in fast mode) needs a literal-only run up to an exact offset with planted matches and is not reached by the seeded search (DESIGN 10.6). A guard page catches accesses behind the END of an allocation (up to alignment slack) of at least 4 KiB, not in front of it and not use after free (freed mappings are recycled). Shadow assertions are hand-written restatements of the SAFETY comments; ASan cannot see asm! loads, Miri cannot execute asm!; x86_64 only.")
 
 NOT_YET = {}
 for i in range(1, 20):
